@@ -163,6 +163,45 @@ def gen_big(rng, quick):
             "eps": F(1, 2 ** 20), "aeps": rng.choice([F(1, 2 ** 10), F(0)])}
 
 
+def gen_sliver2(rng):
+    """Near-coincident boundaries: a long cell beside a row of cells whose first (or last) boundary lies within 1% of the
+    long cell's thickness from its end - that cut is refused as a sliver - followed by further boundaries that are
+    legitimate cuts.  Both axes, slivers at either end, optionally two long cells."""
+    h, d = rng.choice([(F(32), F(1, 4)), (F(64), F(1, 2)), (F(16), F(1, 8)), (F(32), F(5, 16)), (F(64), F(5, 8))])
+    L = F(rng.choice([8, 10, 12, 16]))
+    x0, y0 = F(rng.randrange(0, 4), 2), F(rng.randrange(0, 4), 2)
+    cuts = sorted(rng.sample([F(k, 2) for k in range(2, int(L) * 2 - 1)], rng.choice([1, 2, 3])))
+    end = rng.choice(["low", "low", "high", "both"])
+    marks = [F(0)] + ([d] if end in ("low", "both") else []) + cuts + ([L - d] if end in ("high", "both") else []) + [L]
+    th = rng.choice([F(2), F(4), F(1)])
+    # in (u, v) coordinates: the long cell is [0, L] x [0, h], the row above it [marks[i], marks[i+1]] x [h, h + th]
+    boxes = [(F(0), F(0), L, h)] + [(a, h, b, h + th) for a, b in zip(marks, marks[1:])]
+    if rng.random() < 0.3:
+        boxes.append((F(0), h + th, L, h + th + h))          # a second long cell on the other side of the row
+    if rng.random() < 0.5:                                   # the other axis
+        boxes = [(b[1], b[0], b[3], b[2]) for b in boxes]
+    mods = ac.MODS[:3]
+    cells = []
+    for b in boxes:
+        r = {"cx": x0 + (b[0] + b[2]) / 2, "cy": y0 + (b[1] + b[3]) / 2, "w": b[2] - b[0], "h": b[3] - b[1],
+             "fixed": False, "hard": False, "region": "_", "loc": "NOPOLY"}
+        al = [[m, rng.choice(ac.RATIOS[1:])] for m in rng.sample(mods, rng.randrange(0, 3))]
+        cells.append({"rect": r, "alloc": al, "depth": rng.choice([0, 0, 1])})
+    if not any(c["alloc"] for c in cells):
+        cells[0]["alloc"] = [["M1", F(1, 2)]]
+    rng.shuffle(cells)
+    hops = [["apply", 0, ["griddify"]]]
+    r = rng.random()
+    if r < 0.3:
+        hops += [["setfixed", 0, rng.randrange(0, 16), True], ["apply", 0, ["griddify"]]]
+    elif r < 0.5:
+        hops += [["apply", 1, ["griddify"]]]
+    elif r < 0.7:
+        hops = [["apply", 0, ["refine", F(1), 1]], ["apply", 1, ["griddify"]]]
+    return {"kind": f"sliver2-{end}", "cells": cells, "hops": hops,
+            "eps": F(1, 2 ** 20), "aeps": rng.choice([F(1, 2 ** 10), F(0)])}
+
+
 def vary(rng, case):
     """Apply (independently, each with a small probability) the variations to a generated history case."""
     tags = []
